@@ -4,7 +4,7 @@ import VelaVerif.Handlers.Util
 /-!
 C11 requests.
 
-`preserve s.tensors=<t>,… s.inputs=<i>,… s.outputs=<i>,… s.ops=<op>;… o.tensors=… o.inputs=… o.outputs=… o.ops=…`
+`preserve s.nsg=<n> o.nsg=<n> s.tensors=<t>,… s.inputs=<i>,… s.outputs=<i>,… s.ops=<op>;… o.tensors=… o.inputs=… o.outputs=… o.ops=…`
   tensor  `<namehex>:<d>/<d>…:<type>:<quant>:<const>:<var>`; quant `-` or `<scalebits>/…~<zp>/…~<minbits>/…~<maxbits>/…~<qdim>`;
           const `-` or `<bytes>.<digest>`
   op      `<builtin>:<customhex>:<version>:<T|N><optiontype>~<slot>.<hex>…:<customoptionshex>:<in>/<in>…:<out>/<out>…`
@@ -101,7 +101,12 @@ def handle : List String → Option String
   | "preserve" :: toks => do
     let src ← parseGraph toks "s"
     let out ← parseGraph toks "o"
-    let v := check src out
+    let v0 := check src out
+    -- number of subgraphs of the two files (the generator emits one; only subgraph 0 is compared in detail)
+    let nsg := match (kv toks "s.nsg").bind parseNat?, (kv toks "o.nsg").bind parseNat? with
+      | some a, some b => if a == b then [] else [(⟨"subgraph-count", s!"source {a} output {b}"⟩ : Problem)]
+      | _, _ => []
+    let v := { v0 with problems := nsg ++ v0.problems }
     let c := v.cover
     let stats := s!"preserved={c.preserved} absorbed={c.absorbed} folded={c.folded} bypassed={c.bypassed} dead={c.dead} ethosu={v.ethosu}"
     if !v.pre.isEmpty then some (s!"pre {stats} n={v.pre.length} " ++ showProblems v.pre)
